@@ -1,6 +1,6 @@
 (** C14 — proofs about the codec model (Model.v) and the generated schemas. *)
 From Coq Require Import List NArith Bool Lia Arith.
-From GV Require Import Common.Outcome C14.Model C14.Schema_gen C14.Spec.
+From GV Require Import Common.Outcome C14.Model C14.Schema_gen C14.Spec C14.Run.
 Import ListNotations.
 Local Open Scope N_scope.
 
@@ -188,22 +188,20 @@ Qed.
 
 Lemma take_app : forall a r, take (length a) (a ++ r) = Some (a, r).
 Proof.
-  intros a r. unfold take.
-  assert (Hlt : (length (a ++ r) <? length a)%nat = false).
-  { apply Nat.ltb_ge. rewrite app_length. lia. }
-  rewrite Hlt.
-  rewrite firstn_app, firstn_all, Nat.sub_diag. simpl. rewrite app_nil_r.
-  rewrite skipn_app, skipn_all, Nat.sub_diag. simpl. reflexivity.
+  induction a as [|b a IH]; intros r.
+  - reflexivity.
+  - cbn [length app take]. rewrite IH. reflexivity.
 Qed.
 
 Lemma take_inv : forall k bs a r,
   take k bs = Some (a, r) -> bs = a ++ r /\ length a = k.
 Proof.
-  intros k bs a r H. unfold take in H.
-  destruct (length bs <? k)%nat eqn:Hlt; [discriminate|].
-  apply Nat.ltb_ge in Hlt. inversion H; subst. split.
-  - symmetry. apply firstn_skipn.
-  - apply firstn_length_le. exact Hlt.
+  induction k as [|k IH]; intros bs a r H.
+  - cbn [take] in H. inversion H; subst. split; reflexivity.
+  - cbn [take] in H. destruct bs as [|b bs']; [discriminate|].
+    destruct (take k bs') as [[a' r']|] eqn:Ht; [|discriminate].
+    inversion H; subst. apply IH in Ht. destruct Ht as [Hbs Hlen]. subst bs'.
+    split; [reflexivity|]. simpl. rewrite Hlen. reflexivity.
 Qed.
 
 Lemma bytes_ok_app : forall a b, bytes_ok (a ++ b) -> bytes_ok a /\ bytes_ok b.
@@ -662,6 +660,17 @@ Lemma table_reconstitute : table_reconstitute_stmt.
 Proof.
   unfold table_reconstitute_stmt, reconstitute. intros c t v junk Hv.
   rewrite (codec_roundtrip c _ v junk (proj2 (generated_schemas_wf t)) Hv). reflexivity.
+Qed.
+
+(* what the correspondence driver evaluates is exactly decode / encode under
+   the generated schema *)
+Lemma run_case_spec : forall table t c bs v rest re,
+  run_case table t c bs = Some (v, rest, re) ->
+  decode c (schema_of table t) bs = Some (v, rest) /\ re = encode c (schema_of table t) v.
+Proof.
+  intros table t c bs v rest re H. unfold run_case in H.
+  destruct (decode c (schema_of table t) bs) as [[v' r']|]; [|discriminate].
+  inversion H; subst. split; reflexivity.
 Qed.
 
 (* ---------------------------------- the hypotheses are satisfiable: examples *)
